@@ -4,6 +4,7 @@
 EXTENDS Naturals, Integers, Sequences, FiniteSets, TLC, Json, IOUtils
 S  == INSTANCE Settings
 SC == INSTANCE Scripts
+BF == INSTANCE Bcrypt
 T == ndJsonDeserialize(IOEnv.XCV_TRACE)
 VARIABLES l, viol, cnt
 V(p, n) == [l |-> l, p |-> p, n |-> n]
@@ -25,10 +26,26 @@ Judge(ev) ==
          IF want = <<>> THEN {V("C02", "ScriptMissingCompress")}
          ELSE IF want = ev.out THEN {} ELSE {V("C02", "GostScript")}
   ELSE {}
+\* bcrypt: every key expansion observed in the call (the user's key and the self-test's) equals BFSetKey
+FlagsOf(n) == IF n = "bfkey1" THEN 1 ELSE IF n = "bfkey2" THEN 2 ELSE 4
+JudgeAux(ev) ==
+  IF "aux" \notin DOMAIN ev THEN {}
+  ELSE UNION {LET x == ev.aux[i]
+                  key == SubSeq(x.a, 1, Len(x.a) - 1)
+                  want == BF!BFSetKey(key, FlagsOf(x.n)) IN
+              IF BF!Words(x.b) = want.expanded /\ BF!Words(x.c) = want.initial THEN {} ELSE {V("C02", "BfSetKey")}
+              : i \in 1..Len(ev.aux)}
+\* the key expansion must be the one of the phrase the caller passed and of the subtype the setting names
+JudgeBfUse(ev) ==
+  LET o == S!Outcome(Enabled, ev.s, ev.pl) IN
+  IF "aux" \in DOMAIN ev /\ o.k = "ok" /\ o.m \in {"bcrypt", "bcrypt_a", "bcrypt_x", "bcrypt_y"} /\ Success(ev)
+    THEN LET want == IF o.m = "bcrypt_x" THEN "bfkey1" ELSE IF o.m = "bcrypt_a" THEN "bfkey2" ELSE "bfkey4" IN
+         IF Len(ev.aux) >= 1 /\ ev.aux[1].n = want /\ ev.aux[1].a = ev.pc \o <<0>> THEN {} ELSE {V("C02", "BfKeyOfPhrase")}
+  ELSE {}
 Init == l = 1 /\ viol = {} /\ cnt = 0
 Next == /\ l <= Len(T) /\ l' = l + 1
         /\ IF IsHashEv(T[l].e) /\ T[l].pnull = 0 /\ T[l].snull = 0
-             THEN viol' = viol \cup Judge(T[l]) /\ cnt' = cnt + 1
+             THEN viol' = viol \cup Judge(T[l]) \cup JudgeAux(T[l]) \cup JudgeBfUse(T[l]) /\ cnt' = cnt + 1
              ELSE UNCHANGED <<viol, cnt>>
 Spec == Init /\ [][Next]_<<l, viol, cnt>>
 Finish == l <= Len(T) \/ JsonSerialize(IOEnv.XCV_VERDICT, [consumed |-> l - 1, lines |-> Len(T), viol |-> viol, div |-> {}, cnt |-> [calls |-> cnt]])
